@@ -18,7 +18,7 @@ ASSUMPTIONS = [
     "PyLexer is the lexer under test (sqlfluffrs is not installed in this image)",
     "source positions may go backwards only directly after a TemplateLoop marker emitted by the lexer",
 ]
-TIMEOUT = {"quick": 60, "thorough": 120}
+TIMEOUT = {"quick": 300, "thorough": 600}
 REQUIRED_COUNTERS = ["tokens_checked", "lex_calls"]
 MIN_NONTRIVIAL = {"quick": 200, "thorough": 2000}
 FOUR = ("ansi", "postgres", "tsql", "bigquery")
